@@ -127,6 +127,21 @@ fn run(sh: &mut Shard) {
             }
         }
     }
+    // scope events x kinds of use (plain, fused with a literal, compound, assignment, argument, index)
+    slices::scope_event_programs(if tier == crate::shard::Tier::Quick { 2 } else { 3 }, &mut |prog| {
+        if !sh.mine() {
+            return;
+        }
+        sh.begin(&|| printer::program(&prog));
+        sh.count("slice:scope-events");
+        if let Some(r) = differential(sh, "semantics", &prog, opts()) {
+            if !matches!(r.model.end, End::Unspec(_) | End::Diverge) {
+                sh.nontrivial(&printer::program(&prog));
+            } else {
+                sh.count("scope-events-unspecified");
+            }
+        }
+    });
     for prog in slices::nested_function_programs() {
         if !sh.mine() {
             continue;
